@@ -10,6 +10,7 @@ import (
 	"go/constant"
 	"go/token"
 	"go/types"
+	"os"
 	"sort"
 	"strconv"
 	"strings"
@@ -25,6 +26,9 @@ type rwRT struct {
 	tok *types.Package
 	// markMethod: name of block's "combine check done" method, discovered by behaviour
 	markMethod string
+	// yaFields: state-independent field values of the yieldAst its constructor builds for the import name ʂɘʠ
+	// (function-valued fields such as a qualifier factory), computed once
+	yaFields map[string]map[string]AV
 }
 
 func newRwRT(c *Ctx) *rwRT {
@@ -154,6 +158,21 @@ func (r *rwRT) interp(cfg rwConfig) *Interp {
 	// the rewriter's own configuration fields are not modified by the functions analysed
 	in.HavocKeep = func(key string) bool { return strings.HasPrefix(key, "r.") }
 	in.Fields = map[string]AV{"r.yieldAst.seqImportedName": mkString("ʂɘʠ"), "r.yieldAst.callNormal": Sym{Name: "callNormal", NN: true}}
+	// function-valued fields of the yieldAst (a qualifier factory instead of the import name, ...) are taken from
+	// its constructor, run for the import name the rule has configured
+	in.LazyFields = func(key string) (AV, bool) {
+		// <object>.<field>, where the rule has configured <object>.seqImportedName: <object> is a yieldAst
+		i := strings.LastIndex(key, ".")
+		if i < 0 {
+			return nil, false
+		}
+		name, _ := asString(in.Fields[key[:i]+".seqImportedName"])
+		if name == "" {
+			return nil, false
+		}
+		v, ok := r.yieldAstFields(name)["r.yieldAst."+key[i+1:]]
+		return v, ok
+	}
 	bound := map[string]bool{}
 	for _, b := range rwBoundaries {
 		bound[b] = true
@@ -510,4 +529,103 @@ func (r *rwRT) setFileImports(in *Interp, seqScenario string) {
 		specs = append(specs, sq)
 	}
 	in.Fields["f.File.Imports"] = SliceV{Elems: specs}
+}
+
+// yieldAstFields: the helper object every statement lowering reads its seq names from is built by mkYieldAst.
+// Fields whose value does not depend on the state it was built in (constants, closures over constants) are taken
+// from an abstract run of that constructor, so that a lowering that keeps, say, a qualifier function instead of
+// the import name sees the same configuration.
+func (r *rwRT) yieldAstFields(seqName string) map[string]AV {
+	if m, done := r.yaFields[seqName]; done {
+		return m
+	}
+	if r.yaFields == nil {
+		r.yaFields = map[string]map[string]AV{}
+	}
+	r.yaFields[seqName] = nil
+	mk := r.w.FuncOpt(pathRw, "mkYieldAst")
+	if mk == nil || mk.Signature.Params().Len() != 2 {
+		return nil
+	}
+	in := &Interp{W: r.w, MaxDepth: 12, MaxVisits: 3, MaxRecur: 2}
+	in.Inline = func(fn *ssa.Function) bool { return inRw(fn) }
+	outs := in.Run(newState(), mk, []AV{mkString(seqName), Sym{Name: "r.yieldAst.funRetParamTy"}}, nil)
+	if len(outs) != 1 || outs[0].Panicked || len(outs[0].Ret) != 1 {
+		return nil
+	}
+	obj := outs[0].St.Obj(outs[0].Ret[0])
+	if os.Getenv("VERIF_DEBUG_YA") != "" {
+		fmt.Fprintf(os.Stderr, "YA outs=%d obj=%v ret=%v\n", len(outs), obj != nil, outs[0].Ret)
+		if obj != nil {
+			for k, v := range obj.Fields {
+				fmt.Fprintf(os.Stderr, "YA field %s = %s\n", k, v)
+				if cl, ok := v.(Closure); ok {
+					fmt.Fprintf(os.Stderr, "YA   bind %v\n", cl.Bind)
+				}
+			}
+		}
+	}
+	if obj == nil {
+		return nil
+	}
+	// a value is portable when it mentions no heap object of the scratch state: constants, closures over constants;
+	// a captured variable holding a constant becomes the state-independent address of that constant
+	var port func(v AV, depth int) (AV, bool)
+	port = func(v AV, depth int) (AV, bool) {
+		if depth > 3 {
+			return nil, false
+		}
+		switch x := v.(type) {
+		case Const:
+			return x, true
+		case Ref:
+			if o := outs[0].St.Obj(x); o != nil && o.Kind == 'c' {
+				if pv, ok := port(o.Val, depth+1); ok {
+					if _, isConst := pv.(Const); isConst {
+						return CellV{V: pv}, true
+					}
+				}
+			}
+			return nil, false
+		case Closure:
+			nb := make([]AV, len(x.Bind))
+			for i, b := range x.Bind {
+				pb, ok := port(b, depth+1)
+				if !ok {
+					return nil, false
+				}
+				nb[i] = pb
+			}
+			return Closure{Fn: x.Fn, Bind: nb}, true
+		}
+		return nil, false
+	}
+	out := map[string]AV{}
+	for k, v := range obj.Fields {
+		if _, isClo := v.(Closure); isClo {
+			if pv, ok := port(v, 0); ok {
+				out["r.yieldAst."+k] = pv
+			}
+		}
+	}
+	r.yaFields[seqName] = out
+	return out
+}
+
+// newYieldAst: the helper object of the lowerings, built in st by its own constructor (mkYieldAst) for the given
+// import name and element type; a hand-made object with the two original fields is the fallback.
+func (r *rwRT) newYieldAst(st *State, seqName string, retTy AV) AV {
+	if mk := r.w.FuncOpt(pathRw, "mkYieldAst"); mk != nil && mk.Signature.Params().Len() == 2 {
+		in := &Interp{W: r.w, MaxDepth: 12, MaxVisits: 3, MaxRecur: 2}
+		in.Inline = func(fn *ssa.Function) bool { return inRw(fn) }
+		mark := len(st.Events)
+		outs := in.Run(st, mk, []AV{mkString(seqName), retTy}, nil)
+		if len(outs) == 1 && !outs[0].Panicked && len(outs[0].Ret) == 1 && outs[0].St == st {
+			if ref, ok := outs[0].Ret[0].(Ref); ok && st.Obj(ref) != nil {
+				st.Events = st.Events[:mark] // the construction is set-up, not behaviour under analysis
+				return ref
+			}
+		}
+	}
+	return st.alloc(&Obj{Kind: 's', Fields: map[string]AV{"seqImportedName": mkString(seqName), "funRetParamTy": retTy}})
 }
